@@ -121,7 +121,7 @@ func subMaps(leaves []any) []any {
 //	core (12 trees):    the kinds of override one level deep, used for tuples of 4 sources (thorough)
 //	quick (20 trees):   key a carries the 4 leaves, every sub-map over {absent,S1,null}^2 and two sub-maps with a list;
 //	                    key b absent; plus 5 trees in which b is a bystander or competes
-//	thorough (44 trees): sub-maps over {absent,S1,S2,L,null}^2, depth-3 chains, b-side shapes
+//	thorough (35 trees): every sub-map over {absent,S1,L,null}^2, depth-3 chains, b-side shapes
 func baseFamily(level string) []mp {
 	var out []mp
 	switch level {
@@ -134,7 +134,7 @@ func baseFamily(level string) []mp {
 		var shapes []any
 		shapes = append(shapes, lS1, lS2, lL, lN)
 		if level == "thorough" {
-			shapes = append(shapes, subMaps([]any{lS1, lS2, lL, lN})...)
+			shapes = append(shapes, subMaps([]any{lS1, lL, lN})...)
 		} else {
 			shapes = append(shapes, subMaps([]any{lS1, lN})...)
 			shapes = append(shapes, mp{"a": lL}, mp{"a": lL, "b": lS1})
